@@ -10,7 +10,7 @@
     of the options, the dimensions and the extracted arrays: the encoder model below has exactly
     that shape, and composing it with the import-independence theorems gives "the output is a
     function of the logical picture". *)
-From Coq Require Import ZArith List Bool Lia.
+From Coq Require Import ZArith List Bool Lia String.
 From WebpGen Require ImgUse.
 From Webp Require Import Base.Res Place.PlaceModel Place.PlaceProof.
 Import ListNotations.
@@ -104,36 +104,18 @@ Section Encoder.
   Qed.
 End Encoder.
 
-(** The pixel-reading sites the models and the harness were written against: per function, the
-    type assertions (fast paths) and At() loops, in source order.  A new import loop, a removed
-    fast path or a new function reading pixels changes the regenerated list and breaks this
-    obligation (the harness' placement x type x configuration product must then be reviewed: every
-    site below is driven by *image.NRGBA / *image.RGBA placements and by the wrapper types, with
-    and without metadata (encodeLossless vs encodeLosslessToWriter), alpha / no alpha, Exact,
-    sharp YUV, dithering). *)
-Definition doc_img_uses : list (Z * list U.iuse) :=
-  [ (U.ifn_root_Encode, [U.IUNil; U.IUBounds; U.IUBounds; U.IUPass U.ifn_root_encodeLosslessToWriter;
-                         U.IUPass U.ifn_root_encodeLossless; U.IUPass U.ifn_root_encodeLossyWithAlpha]);
-    (U.ifn_root_encodeLossyWithAlpha,
-       [U.IUPass U.ifn_root_imageHasAlpha; U.IUReassign U.ifn_root_cleanupTransparentAreaLossyWith;
-        U.IUPass U.ifn_root_sharpYUVConvert; U.IUBounds; U.IUBounds; U.IUPass U.ifn_lossy_NewEncoder;
-        U.IUPass U.ifn_root_extractAlphaWith; U.IUBounds]);
-    (U.ifn_root_encodeLossy, [U.IUPass U.ifn_root_encodeLossyWithAlpha]);
-    (U.ifn_root_encodeLossless, [U.IUBounds; U.IUAssert; U.IUAssert; U.IUAt]);
-    (U.ifn_root_encodeLosslessToWriter, [U.IUBounds; U.IUAssert; U.IUAssert; U.IUAt]);
-    (U.ifn_root_cleanupTransparentAreaLossy, [U.IUPass U.ifn_root_cleanupTransparentAreaLossyWith; U.IUPass U.ifn_root_imageHasAlpha]);
-    (U.ifn_root_cleanupTransparentAreaLossyWith, [U.IUReturn; U.IUBounds; U.IUAssert; U.IUAssert; U.IUAt]);
-    (U.ifn_root_imageHasAlpha, [U.IUBounds; U.IUAssert; U.IUAssert; U.IUAt]);
-    (U.ifn_root_sharpYUVConvert, [U.IUBounds; U.IUAssert; U.IUAssert; U.IUAt]);
-    (U.ifn_root_extractAlpha, [U.IUPass U.ifn_root_extractAlphaWith; U.IUPass U.ifn_root_imageHasAlpha]);
-    (U.ifn_root_extractAlphaWith, [U.IUBounds; U.IUAssert; U.IUAssert; U.IUAt]);
-    (U.ifn_root_encodeFrameForAnimation, [U.IUPass U.ifn_root_encodeLossless; U.IUPass U.ifn_root_encodeLossyWithAlpha]);
-    (U.ifn_root_simpleEncodeForAnimation, [U.IUPass U.ifn_root_Encode]);
-    (U.ifn_lossy_NewEncoder, [U.IUBounds; U.IUPass U.ifn_lossy_importImage; U.IUPass U.ifn_lossy_importImage]);
-    (U.ifn_lossy_importImage, [U.IUBounds; U.IUPass U.ifn_lossy_imageHasAlpha; U.IUAssert; U.IUAssert; U.IUAt; U.IUAt]);
-    (U.ifn_lossy_imageHasAlpha, [U.IUAssert; U.IUAssert; U.IUBounds; U.IUAt]) ].
+(** The pixel-reading signatures the models and the harness were written against: the SET of
+    (sorted) pixel-use kinds of the functions that read pixels - two Pix fast paths (NRGBA, RGBA)
+    plus one generic At() loop; lossy.importImage has two At() loops (luma and extractRow);
+    cleanupTransparentAreaLossyWith may also hand the image back.  Which function holds a loop
+    is not pinned (extracting the duplicated import block of encodeLossless / encodeLosslessToWriter
+    into a helper leaves the set unchanged); a NEW kind of reader (a function with only an At()
+    loop, a third fast path, ...) changes the set and breaks this obligation: the harness'
+    placement x type x configuration product must then be reviewed. *)
+Definition doc_pixel_signatures : list string :=
+  [ "IUAssert,IUAssert,IUAt"%string; "IUAssert,IUAssert,IUAt,IUAt"%string; "IUAssert,IUAssert,IUAt,IUReturn"%string ].
 
-Lemma import_sites_match_model : U.img_uses = doc_img_uses.
+Lemma import_sites_match_model : U.img_pixel_signatures = doc_pixel_signatures.
 Proof. reflexivity. Qed.
 
 (** every offset the fast paths read lies in the buffer, in row y, in the columns of the bounds *)
